@@ -91,8 +91,9 @@ META = {
                     'rows*cols values per stored block; cr_helper: indices has n+1 entries with indices[0] <= n nodes listed behind it, and the abstract scalars satisfy CrOrd '
                     '(0 tests as zero, a > 0 implies a != 0, a > m > 0 implies a > 0: true for IEEE doubles and exact arithmetic); the correspondence inputs of cr_helper keep '
                     'inf_norm > 0 (the kernel divides by it; 0/0 is NaN in C and 0 in the exact model)',
-                    'round-4 models: vertex_coloring_jones_plassmann / _LDF and cljp_naive_splitting(colorflag = 1) need n > 0 (for n = 0 the kernels dereference max_element of an empty '
-                    'range: reported finding; the models fault there, control inputs); vertex_coloring_first_fit: K >= 0, no entry of x above K and the nodes coloured K separated (what a '
+                    'round-4 models: n = 0 is covered (vertex_coloring_jones_plassmann / _LDF return -1, cljp_naive_splitting returns at once since c2b91b3; compared exactly on the empty '
+                    'graph); maximal_independent_set_k_parallel with n = 0 (addresses of elements of empty std::vectors) and symmetric_rcm / breadth_first_search on a 0x0 matrix '
+                    '(order[0] written) are reported findings that the empty-graph scenarios of the sanitizer search leave out (flags EMPTY_MISK / EMPTY_RCM); vertex_coloring_first_fit: K >= 0, no entry of x above K and the nodes coloured K separated (what a '
                     'parallel-MIS pass establishes on ANY pattern: parallel_coloring_round_safe); fit_candidates: Ax holds K1*K2 values per stored index, B n_row*K1*K2, R n_col*K2^2; '
                     'approx_ideal_restriction_pass2: Rp is the output of the first pass on the same C / splitting / Cpts / distance (RpOK, proved for the pass-1 model: '
                     'approx_ideal_restriction_pass1_establishes_RpOK), Rj and Rx hold Rp[|Cpts|] entries (block version: Ax, Rx hold blocksize^2 values per entry), maxiter >= 0; '
@@ -105,6 +106,13 @@ META = {
                       'harness/props/c17.py CONTRACT table: which output regions each kernel must define'],
 }
 
+# reported finding (E32 follow-up, not yet repaired / listed): maximal_independent_set_k_parallel with num_rows = 0 takes &(i_keys[0]) .. of empty
+# std::vectors (libstdc++ assertion `__n < this->size()`), reachable through pyamg.graph.maximal_independent_set(0x0 matrix, k=1).  The n = 0 call of
+# exactly this kernel stays out of the empty-graph scenarios until the tree is repaired; set to True then.
+EMPTY_MISK = True
+# second reported finding of the same class: pyamg.graph.symmetric_rcm / pseudo_peripheral_node on a 0x0 matrix call breadth_first_search with seed 0 and
+# zero-length `order` / `level` (graph.h: `order[0] = seed; level[seed] = 0;` heap-buffer-overflow WRITE).  Left out until repaired; set to True then.
+EMPTY_RCM = True
 CPU_LIMIT = 4.0          # CPU seconds (ITIMER_VIRTUAL) allowed for one kernel call on n <= 40
 P_I4 = -2147482203       # INT_MIN + 1445
 P_F8 = 0x7ff8dead0000beef
@@ -1057,7 +1065,36 @@ class Raw:
             else:
                 self.call(rng, name, [v, W, rand_vec(rng, k, c), n, *s], params)
 
-    SCENARIOS = ['point_relax', 'block_relax', 'classical_chain', 'classical_chain', 'aggregation', 'graph', 'helpers', 'cr', 'products', 'schwarz_raw', 'air_raw', 'rs_stress', 'constraints']
+    # ---- empty graph (num_rows = 0): every graph / splitting / aggregation / strength kernel the public wrappers reach with a 0x0 matrix;
+    #      all arrays have length 0 (row pointer: one entry), so any access to "the first element" is out of bounds
+    def empty_graph(self, rng):
+        i4, f8 = (lambda k=0: np.zeros(k, dtype=np.int32)), (lambda k=0: np.zeros(k))
+        ip, ix, dx = i4(1), i4(), f8()
+        self.tr.ctx.update(feats=['empty-graph'])
+        th = float(rng.choice([0.0, 0.25, 1.0]))
+        for name in ('classical_strength_of_connection_abs', 'classical_strength_of_connection_min', 'symmetric_strength_of_connection'):
+            self.call(rng, name, [0, th, ip, ix, dx, i4(1), i4(), f8()])
+        self.call(rng, 'maximum_row_value', [0, f8(), ip, ix, dx])
+        self.call(rng, 'rs_cf_splitting', [0, ip, ix, ip.copy(), ix.copy(), i4(), i4()])
+        self.call(rng, 'rs_cf_splitting_pass2', [0, ip, ix, i4()])
+        for cf in (0, 1):
+            self.call(rng, 'cljp_naive_splitting', [0, ip, ix, ip.copy(), ix.copy(), i4(), cf])
+        for p1 in ('rs_direct_interpolation_pass1', 'rs_classical_interpolation_pass1'):
+            self.call(rng, p1, [0, ip, ix, i4(), i4(1)])
+        for name in ('standard_aggregation', 'naive_aggregation'):
+            self.call(rng, name, [0, ip, ix, i4(), i4()])
+        self.call(rng, 'pairwise_aggregation', [0, ip, ix, dx, i4(), i4()])
+        self.call(rng, 'maximal_independent_set_serial', [0, ip, ix, -1, 1, 0, i4()])
+        self.call(rng, 'maximal_independent_set_parallel', [0, ip, ix, -1, 1, 0, i4(), f8(), int(rng.choice([-1, 0, 2]))])
+        if EMPTY_MISK:
+            self.call(rng, 'maximal_independent_set_k_parallel', [0, ip, ix, int(rng.integers(0, 3)), i4(), f8(), int(rng.choice([-1, 0, 2]))])
+        self.call(rng, 'vertex_coloring_mis', [0, ip, ix, i4()])
+        self.call(rng, 'vertex_coloring_jones_plassmann', [0, ip, ix, i4(), f8()])
+        self.call(rng, 'vertex_coloring_LDF', [0, ip, ix, i4(), f8()])
+        self.call(rng, 'connected_components', [0, ip, ix, i4()])
+
+    SCENARIOS = ['point_relax', 'block_relax', 'classical_chain', 'classical_chain', 'aggregation', 'graph', 'helpers', 'cr', 'products', 'schwarz_raw', 'air_raw', 'rs_stress', 'constraints',
+                 'empty_graph']
 
 
 def wf_csr(n, p, j, m=None):
@@ -1407,7 +1444,45 @@ class Public:
         if ml is not None:
             self.attempt('solve', ml.solve, b, maxiter=2, cycle=str(rng.choice(['V', 'W', 'F'])))
 
-    SCENARIOS = ['strength_split_interp', 'strength_split_interp', 'aggregation_sa', 'energy_bsr', 'relaxation_api', 'relaxation_api', 'graph_api', 'utils_api', 'solvers_api']
+    def empty_api(self, rng):
+        """the public graph / splitting / aggregation / strength functions on a 0 x 0 matrix (Python-level refusals are fine, the kernels must stay in range)"""
+        import scipy.sparse as sp
+        import pyamg.graph as PG
+        from pyamg import strength as ST
+        from pyamg.classical import split as SPL
+        from pyamg.aggregation import aggregate as AG
+        self.tr.ctx.update(feats=['empty-graph'])
+
+        def E():
+            A = sp.csr_array((np.zeros(0), np.zeros(0, dtype=np.int32), np.zeros(1, dtype=np.int32)), shape=(0, 0))
+            A.indptr, A.indices = A.indptr.astype(np.int32), A.indices.astype(np.int32)
+            return A
+        for algo in ('serial', 'parallel'):
+            np.random.seed(int(rng.integers(2 ** 31)))
+            self.attempt('maximal_independent_set(0x0)', PG.maximal_independent_set, E(), algo=algo)
+        if EMPTY_MISK:
+            np.random.seed(int(rng.integers(2 ** 31)))
+            self.attempt('maximal_independent_set(k, 0x0)', PG.maximal_independent_set, E(), k=int(rng.integers(1, 3)))
+        for method in ('MIS', 'JP', 'LDF'):
+            np.random.seed(int(rng.integers(2 ** 31)))
+            self.attempt('vertex_coloring(0x0)', PG.vertex_coloring, E(), method=method)
+        self.attempt('connected_components(0x0)', PG.connected_components, E())
+        if EMPTY_RCM:
+            self.attempt('symmetric_rcm(0x0)', PG.symmetric_rcm, E())
+        for norm in ('abs', 'min'):
+            self.attempt('classical_strength_of_connection(0x0)', ST.classical_strength_of_connection, E(), theta=0.25, norm=norm)
+        self.attempt('symmetric_strength_of_connection(0x0)', ST.symmetric_strength_of_connection, E(), theta=0.25)
+        for nm, fn, kw in (('RS', SPL.RS, {}), ('RS2', SPL.RS, {'second_pass': True}), ('PMIS', SPL.PMIS, {}), ('PMISc', SPL.PMISc, {}),
+                           ('CLJP', SPL.CLJP, {}), ('CLJPc', SPL.CLJPc, {})):
+            np.random.seed(int(rng.integers(2 ** 31)))
+            self.attempt(f'{nm}(0x0)', fn, E(), **kw)
+        self.attempt('MIS(0x0)', SPL.MIS, E(), np.zeros(0))
+        for nm, fn, kw in (('standard_aggregation', AG.standard_aggregation, {}), ('naive_aggregation', AG.naive_aggregation, {}),
+                           ('pairwise_aggregation', AG.pairwise_aggregation, {'matchings': 1})):
+            self.attempt(f'{nm}(0x0)', fn, E(), **kw)
+
+    SCENARIOS = ['strength_split_interp', 'strength_split_interp', 'aggregation_sa', 'energy_bsr', 'relaxation_api', 'relaxation_api', 'graph_api', 'utils_api', 'solvers_api',
+                 'empty_api']
 
 
 def child_main(argv):
@@ -2141,6 +2216,30 @@ def ext4_model_items(rng, amg_core, add, n, ip, ix, dx):
         'maximal_independent_set_k_parallel', nt)
 
 
+def ext4_empty_items(rng, amg_core, add):
+    """E32: the round-4 graph / splitting / aggregation models on the EMPTY graph (num_rows = 0, all arrays of length 0), compared exactly with the kernels
+    (since c2b91b3 the colourings return -1 and CLJP returns at once)"""
+    from common import enc_ints, enc_rats
+    i4, f8 = (lambda k=0: np.zeros(k, dtype=np.int32)), (lambda k=0: np.zeros(k))
+    ip, ix = i4(1), i4()
+    gh = f'0 {enc_ints(ip)} {enc_ints(ix)}'
+    x = i4()
+    K = amg_core.vertex_coloring_mis(0, ip, ix, x)
+    add(f'ext_c17r4_vertex_coloring_mis {gh} -', f'-;{int(K)};ok', 'vertex_coloring_mis(n=0)', False)
+    mi = int(rng.choice([-1, 0, 2]))
+    N = amg_core.maximal_independent_set_parallel(0, ip, ix, -1, 1, 0, x, f8(), mi)
+    add(f'ext_c17r4_maximal_independent_set_parallel {gh} -1 1 0 - - {mi}', f'-;{int(N)};ok', 'maximal_independent_set_parallel(n=0)', False)
+    K = amg_core.vertex_coloring_jones_plassmann(0, ip, ix, x, f8())
+    add(f'ext_c17r4_vertex_coloring_jones_plassmann {gh} - -', f'-;-;{int(K)};ok', 'vertex_coloring_jones_plassmann(n=0)', False)
+    K = amg_core.vertex_coloring_LDF(0, ip, ix, x, f8())
+    add(f'ext_c17r4_vertex_coloring_LDF {gh} - -', f'-;{int(K)};ok', 'vertex_coloring_LDF(n=0)', False)
+    k = amg_core.pairwise_aggregation(0, ip, ix, f8(), x, i4())
+    add(f'ext_c17r4_pairwise_aggregation {gh} - - -', f'-;-;{int(k)};ok', 'pairwise_aggregation(n=0)', False)
+    for cf in (0, 1):
+        amg_core.cljp_naive_splitting(0, ip, ix, ip.copy(), ix.copy(), x, cf)
+        add(f'ext_c17r4_cljp_naive_splitting {gh} {enc_ints(ip)} - - {cf} -', '-;ok', 'cljp_naive_splitting(n=0)', False)
+
+
 def model_items(seed, ncases, inflight):
     """(runs in a child process) correspondence requests for the Lean driver with the outputs of the real kernels"""
     from pyamg import amg_core as _core
@@ -2294,6 +2393,8 @@ def model_items(seed, ncases, inflight):
         ext3_model_items(rng_ext3, amg_core, add, n, ip, ix, dx)
         ext25_model_items(rng_ext25, amg_core, add, n, ip, ix)
         ext4_model_items(rng_ext4, amg_core, add, n, ip, ix, dx)
+        if t % 10 == 0:
+            ext4_empty_items(rng_ext4, amg_core, add)
         # proof-side models of the termination theorems + RS model (existing ops; symmetric graphs, no self loops for RS)
         gp, gj, gx, _ = _exact_csr(rng, n, sym=True, diag='none', unsorted=False)
         gh = f'{n} {enc_ints(gp)} {enc_ints(gj)}'
@@ -2440,7 +2541,6 @@ def part_model(ctx, ncases):
         ('ext_c17r4_fit_candidates 1 1 1 0,1 3 0 0 0 0', ';fault'),                                          # Ai = 3: B has one supernode
         ('ext_c17r4_cljp_naive_splitting 2 0,1,2 1,0 0,1,2 1,5 -7,-7 1 0,0', ';fault'),                      # Tj = 5: splitting[5]
         ('ext_c17r4_cljp_naive_splitting 2 0,1,2 1,7 0,1,2 1,0 -7,-7 0 0,0', ';fault'),                      # Sj = 7: weight[7]
-        ('ext_c17r4_cljp_naive_splitting 0 0 - 0 - - 1 -', ';fault'),                                        # n = 0 with colouring: *max_element of an empty vector
         ('ext_c17r4_pairwise_aggregation 2 0,1,2 1,5 1,1 -7,-7 -7,-7', ';fault'),                           # column index 5: m[5]
         ('ext_c17r4_pairwise_aggregation 2 0,1,2 1,0 1,1 -7,-7 -', ';fault'),                               # y is empty
         ('ext_c18_bfbal 2 0,1,2 1,0 1,1 1/100000000000000 1 0,inf 0,-1 -1,-1 0,0 -', 'fault'),                 # s is empty: s[m[i]] out of range
@@ -2449,10 +2549,8 @@ def part_model(ctx, ncases):
         ('ext_c17r4_vertex_coloring_mis 2 0,1,2 1,0 -7', ';fault'),                                       # x has one entry
         ('ext_c17r4_maximal_independent_set_parallel 2 0,1,2 1,0 -1 1 0 -1,-1 0 -1', ';fault'),           # y has one entry
         ('ext_c17r4_maximal_independent_set_parallel 2 0,1,2 1,0 -1 1 0 -1,-1 0,0 0', '-1,-1;0;ok'),      # max_iters = 0: no pass
-        ('ext_c17r4_vertex_coloring_jones_plassmann 0 0 - - -', ';fault'),                                # num_rows = 0: *max_element(x, x) reads x[0]
         ('ext_c17r4_vertex_coloring_jones_plassmann 2 0,1,2 1,0 -7,-7 0', ';fault'),                      # z has one entry
         ('ext_c17r4_vertex_coloring_LDF 2 0,1,2 1,7 -7,-7 0,0', ';fault'),                                # column index 7
-        ('ext_c17r4_vertex_coloring_LDF 0 0 - - -', ';fault'),                                            # num_rows = 0
         ('ext_c17r4_maximal_independent_set_k_parallel 2 0,1,2 1,0 1 -7,-7 0 -1', ';fault'),              # y has one entry
         ('ext_c17r4_maximal_independent_set_k_parallel 2 0,1,2 1,5 1 -7,-7 0,0 -1', ';fault'),            # column index 5: i_keys[5]
         ('ext_c17r4_maximal_independent_set_k_parallel 3 0,1,3,4 1,0,2,1 1 -7,-7,-7 -1,0,1 -1', 'nonterm'),   # a weight <= -1 next to a decided node (C18 finding): the fuel runs out
